@@ -17,7 +17,7 @@ abbrev Text := List Char
 
 /-- `t!"abc"` is the list `['a','b','c']`, built when the file is elaborated (a `String` literal would have to be
 decoded inside the kernel, which is slow for long statements) -/
-macro "t!" s:str : term => do
+macro:max "t!" s:str : term => do
   let cs := s.getString.toList
   let elems ← cs.toArray.mapM (fun c => `($(Lean.Syntax.mkCharLit c)))
   `(([$elems,*] : List Char))
